@@ -106,7 +106,7 @@ def request_entries(app, pairs):
 
 def expected(req, APS_T, NRETRY):
     """-> (outcome class, detail)"""
-    enq = (req["enq"] + ["ok"] * 3)[:NRETRY]
+    enq = (req["enq"] + ["ok"] * NRETRY)[:NRETRY]
     for k, st in enumerate(enq):
         if st == "ok":
             break
@@ -125,6 +125,9 @@ def expected(req, APS_T, NRETRY):
 
 
 def gen_cases(tier, seed, V):
+    import bellows.zigbee.application as A_
+
+    NRETRY = len(A_.RETRY_DELAYS)  # attempts per request: read from the tree
     rnd = random.Random(seed * 131 + V)
     cases = []
     # exhaustive single plain unicast: every enqueue script (len<=3, stops at first non-busy) x confirmation
@@ -136,12 +139,18 @@ def gen_cases(tier, seed, V):
             for tm in term:
                 scripts.append(pre + [tm])
     scripts += [[a, b, c] for a in busy for b in busy for c in busy]
+    if NRETRY != 3:
+        # busy up to and through the last attempt the tree makes
+        for n in range(3, NRETRY + 1):
+            for j, b0 in enumerate(busy):
+                pre = [busy[(j + i) % len(busy)] for i in range(n)]
+                scripts += [pre] + ([pre[:-1] + [tm] for tm in term] if n <= NRETRY else [])
     for sc in scripts:
         confs = CONF if sc[-1] == "ok" else ["success"]
         for c in confs:
             cases.append({"reqs": [dict(kind="uni", enq=sc, conf=c)], "feed": False})
     for k in KINDS[1:]:
-        for sc in ([["ok"]], [["busy_max", "ok"]], [["ref_call"]], [["busy_net", "busy_buf", "busy_max"]]):
+        for sc in ([["ok"]], [["busy_max", "ok"]], [["ref_call"]], [(["busy_net", "busy_buf", "busy_max"] * NRETRY)[:max(3, NRETRY)]]):
             for c in (CONF if tier == "thorough" else ["success", "fail", "none", "before_reply", "duplicate"]):
                 cases.append({"reqs": [dict(kind=k, enq=sc[0], conf=c)], "feed": False})
     # the reason for a refusal / a failed delivery must not matter: every other status code of the family
@@ -156,7 +165,7 @@ def gen_cases(tier, seed, V):
         reqs = []
         for _i in range(m):
             reqs.append(dict(kind=rnd.choice(KINDS + ["uni_sr_et", "uni_et", "uni_sr"]),
-                             enq=[rnd.choice(ENQ + ["ok", "ok"]) for _k in range(3)], conf=rnd.choice(CONF)))
+                             enq=[rnd.choice(ENQ + ["ok", "ok"]) for _k in range(NRETRY)], conf=rnd.choice(CONF)))
         cases.append({"reqs": reqs, "feed": rnd.random() < 0.4})
     return cases
 
@@ -232,7 +241,7 @@ def run_shard(desc) -> Acc:
                 k = r["attempt"]
                 r["attempt"] += 1
                 r["send_times"].append(now)
-                st = (r["enq"] + ["ok"] * 3)[k] if k < 3 else "ok"
+                st = (r["enq"] + ["ok"] * 16)[k] if k < 16 else "ok"
                 ST["ref_rand"] = ST["fail_rand"] = family[r.get("rand", 0) % len(family)]
                 if st == "ref_rand" or r["conf"] == "fail_rand":
                     codes_seen.add(ST["ref_rand"])
@@ -412,7 +421,6 @@ def run_shard(desc) -> Acc:
                 for a_, b_, d in zip(r["send_times"], r["send_times"][1:], DELAYS):
                     if b_ - a_ < d - 1e-6:
                         bad.append(("C12/retry/attempts-not-spaced", f"request {r['i']}: attempts {b_ - a_:.3f}s apart, configured delay {d}"))
-                nb = sum(1 for e_ in (r["enq"] + ["ok"] * 3)[:3] if e_.startswith("busy"))
                 if why == "busy-exhausted" and len(r["send_times"]) != len(DELAYS):
                     bad.append(("C12/retry/wrong-number-of-attempts", f"request {r['i']}: {len(r['send_times'])} attempts, expected {len(DELAYS)}"))
                 # reach
